@@ -1,4 +1,5 @@
 import Reclass.Props.C01
+import Reclass.Props.C01c
 open Reclass
 #print axioms Reclass.C01.instrumented_is_model
 #print axioms Reclass.C01.walk_sound
@@ -28,3 +29,8 @@ open Reclass
 #print axioms Reclass.C01.plain_trace_entries
 #print axioms Reclass.C01.render_sound
 #print axioms Reclass.C01.render_complete
+#print axioms Reclass.C01c.walk_entry_congr
+#print axioms Reclass.C01c.raw_spelling_in_seen_is_irrelevant
+#print axioms Reclass.C01c.resolved_in_seen_is_skipped
+#print axioms Reclass.C01c.escaped_entry_names_literal_class
+#print axioms Reclass.C01c.escaped_then_reference
